@@ -46,14 +46,20 @@ func (w *World) noteEvents() {
 	if w.st.OpRemoves > 0 {
 		w.stats.Extra["ev:"+name+":slabs-removed"]++
 	}
-	if n.Parent == nil && n.fp == nil {
-		if d := w.quickDepth(n); d > 0 {
-			if n.lastDepth > 0 && d > n.lastDepth {
-				w.stats.Extra["ev:"+name+":depth+"]++
-			} else if n.lastDepth > 0 && d < n.lastDepth {
-				w.stats.Extra["ev:"+name+":depth-"]++
+	// depth of the outermost container the operation's target lives in (an operation on a nested child can split or
+	// demote the root of its ancestors)
+	top, nested := n, ""
+	for top.Parent != nil {
+		top, nested = top.Parent, "(nested)"
+	}
+	if top.fp == nil && (top.Arr != nil || top.Map != nil) {
+		if d := w.quickDepth(top); d > 0 {
+			if top.lastDepth > 0 && d > top.lastDepth {
+				w.stats.Extra["ev:"+name+nested+":depth+"]++
+			} else if top.lastDepth > 0 && d < top.lastDepth {
+				w.stats.Extra["ev:"+name+nested+":depth-"]++
 			}
-			n.lastDepth = d
+			top.lastDepth = d
 		}
 	}
 	w.curNode, w.curOp = nil, ""
